@@ -115,6 +115,17 @@ def api_replay(L, N, use_obliquity, sync, what):
         kw = dict(host_mass=1.9e27, target_radius=1.8e6, target_mass=8.9e22, target_gravity=1.8, target_density=3500., target_moi=1.0e35,
                   rheology='cpl', eccentricity=0.07, obliquity=0.2 if use_obliquity else None, orbital_frequency=n, spin_frequency=spin,
                   max_tidal_order_l=L, eccentricity_truncation_lvl=N, use_obliquity=use_obliquity)
+        if what.startswith('circular synchronous'):
+            # circular, zero-obliquity, synchronous orbit; spin passed as its own array with the same values as the mean motion
+            kw.update(eccentricity=replay.arr([0.0, 0.0]), obliquity=None, use_obliquity=False, orbital_frequency=replay.arr([n, 1.5 * n]), spin_frequency=replay.arr([n, 1.5 * n]))
+            outs = []
+            for kw2 in (kw, dict(kw, spin_frequency=None)):
+                r = replay.call_real([{'module': 'TidalPy.toolbox.quick_tides', 'func': 'quick_tidal_dissipation', 'args': [], 'kwargs': kw2}])[0]
+                if not r['ok']:
+                    return True, 'quick_tidal_dissipation raised %s' % r['error']
+                outs.append({k: r['value'][k] for k in ('tidal_heating', 'dUdM', 'dUdw', 'dUdO')})
+            bad = any(abs(x) > 0 for o in outs for vv in o.values() for x in (vv if isinstance(vv, list) else [vv]))
+            return bad, 'quick_tidal_dissipation(e=0, no obliquity, spin == n; l_max=%d N=%d, CPL): spin as separate array -> %r ; spin_frequency=None -> %r' % (L, N, outs[0], outs[1])
         r = replay.call_real([{'module': 'TidalPy.toolbox.quick_tides', 'func': 'quick_tidal_dissipation', 'args': [], 'kwargs': kw}])[0]
         if not r['ok']:
             return True, 'quick_tidal_dissipation raised %s' % r['error']
@@ -229,14 +240,20 @@ def job_entries(L, N, use_obliquity, sync, totals):
     return {'results': results, 'encoded': loader.ENCODED, 'axioms': CTX.axiom_notes, 'label': tag}
 
 
-def job_sync_limits(L, N):
+def job_sync_limits(L, N, distinct=False):
     """real tables executed in e (obliquity off => I = 0), spin IS n (same object): (a) everything vanishes at e = 0; (b) l_max=2,N=2: classical limit"""
     calc, collapse, sus, G = load_core()
     e = Q.sym('e')
     ecc, inc = real_tables(L, N, False, e, Q(0))
     n, a, R, M = [Q.sym(x) for x in ('n', 'a', 'R', 'Mh')]
     A = [n.re > 0, a.re > 0, R.re > 0, M.re > 0, G.re > 0, e.re >= 0, e.re < 1]
-    uniq, res = calc(n, n, a, R, ecc, inc)
+    spin = n
+    if distinct:
+        # the caller passes spin as its own object holding the same value as n (e.g. two arrays): the identity test in calculate_terms is False,
+        # zero-frequency modes are kept and must carry zero weight
+        spin = Q.sym('spin')
+        A = A + [eq_goal(spin, n)]
+    uniq, res = calc(spin, n, a, R, ecc, inc)
     if not res:
         raise RuntimeError('no terms')
     # one -Im k symbol per degree l and frequency value
@@ -245,11 +262,11 @@ def job_sync_limits(L, N):
     heat, dUdM, dUdw, dUdO, love, negimk, effq = collapse(Q.sym('g'), R, Q.sym('rho'), Q(1), Q(1), M, S, comp, res, L, True)
     at0 = [(e.re, z3.RealVal(0))]
     results = []
-    tag = 'synchronous zero-obliquity l_max=%d N=%d' % (L, N)
+    tag = 'synchronous zero-obliquity l_max=%d N=%d%s' % (L, N, ' (spin given as a distinct object equal to n)' if distinct else '')
     for nm, val in (('tidal_heating', heat), ('dUdM', dUdM), ('dUdw', dUdw), ('dUdO', dUdO)):
         results.append(discharge(Obligation('%s: %s vanishes identically at e=0' % (tag, nm), eq_goal(Q.of(val).substitute(at0), Q(0)), A + kconds,
                                             replay=api_replay(L, N, False, True, 'circular synchronous output not zero'), key='zero:%s:%s' % (tag, nm))))
-    if L == 2 and N == 2:
+    if L == 2 and N == 2 and not distinct:
         ks = list({id(v): v for v in comp.values()}.values())
         same = [ks[0].im == k.im for k in ks[1:]] + [ks[0].re == k.re for k in ks[1:]]
         negim = -ks[0].imag
@@ -403,6 +420,7 @@ def main():
                 jobs.append((job_entries, {'L': L, 'N': N, 'use_obliquity': ob, 'sync': sync, 'totals': (L <= 3 and N <= 6) or TIER == 'thorough' and L <= 4 and N <= 10}))
     for (L, N) in ([(2, 2), (2, 6), (3, 4)] if TIER != 'thorough' else [(2, 2), (2, 6), (2, 20), (3, 4), (3, 10), (5, 6), (7, 20)]):
         jobs.append((job_sync_limits, {'L': L, 'N': N}))
+        jobs.append((job_sync_limits, {'L': L, 'N': N, 'distinct': True}))
     for (L, N, ob) in ([(2, 4, True), (3, 4, False)] if TIER != 'thorough' else [(2, 4, True), (2, 20, True), (3, 6, True), (4, 6, False), (7, 10, False)]):
         jobs.append((job_grouping, {'L': L, 'N': N, 'use_obliquity': ob}))
     jobs.append((job_arrays, {'L': 2, 'N': 4}))
